@@ -189,6 +189,21 @@ func c15RandProject(r *rand.Rand, malformed bool) (c15State, []string) {
 			}
 		}
 	}
+	if n >= 3 && r.Intn(5) == 0 {
+		// several services depend on the same one, some edges required and some optional: when that service is
+		// disabled the walk must judge each edge by its own flag (seed C15-4 merged the per-service maps)
+		t := names[order[0]]
+		for a := 1; a < n; a++ {
+			if r.Intn(3) != 0 {
+				svcs[names[order[a]]].Deps[t] = c15Dep{Required: r.Intn(2) == 0, Cond: c15Conds[r.Intn(3)]}
+			}
+		}
+		if r.Intn(2) == 0 {
+			s := svcs[t]
+			s.Profiles = []string{"r"} // a profile no load of the generator activates: the target starts disabled
+			svcs[t] = s
+		}
+	}
 	if malformed {
 		for k := 0; k < 1+r.Intn(3); k++ {
 			x := names[r.Intn(n)]
